@@ -38,6 +38,8 @@ def lemma_obligations(R, prop):
                                      {'no_entry_state': True})
                 if lo.timeout:
                     o.info['timeout'] = lo.timeout
+                if lo.logic:
+                    o.info['logic'] = lo.logic
                 out.append(o)
     return out
 
